@@ -278,6 +278,32 @@ def run_apalache(scratch, module_path, args, timeout=900):
     return "error", out[-1500:]
 
 
+def run_tlapm(scratch, module, spec_dir=None, timeout=1200, stretch=3, mutate=None):
+    """tlapm on spec/<module>.tla (all spec files copied into a scratch dir; mutate(dir) may edit the copies) -> (proved, failed, tail)."""
+    spec_dir = spec_dir or SPEC
+    d = tempfile.mkdtemp(prefix="tlaps-", dir=scratch)
+    for f in os.listdir(spec_dir):
+        if f.endswith(".tla"):
+            shutil.copy(os.path.join(spec_dir, f), d)
+    if mutate:
+        mutate(d)
+    env = dict(os.environ)
+    env["TMPDIR"] = d
+    try:
+        r = subprocess.run(["tlapm", "--threads", str(min(8, NCPU)), "--cleanfp", "--stretch", str(stretch), module + ".tla"], cwd=d, env=env,
+                           stdout=subprocess.PIPE, stderr=subprocess.STDOUT, text=True, timeout=timeout)
+    except subprocess.TimeoutExpired:
+        return 0, -1, "timeout"
+    out = r.stdout
+    m = re.search(r"All (\d+) obligations? proved", out)
+    if m:
+        return int(m.group(1)), 0, out[-300:]
+    m = re.search(r"(\d+)/(\d+) obligations? failed", out)
+    if m:
+        return int(m.group(2)) - int(m.group(1)), int(m.group(1)), out[-800:]
+    return 0, -1, out[-800:]
+
+
 def tlc_must_pass(res, what):
     if res.timeout:
         raise Inconclusive("TLC timeout in %s" % what)
